@@ -6,59 +6,55 @@ Import ListNotations.
 Open Scope Z_scope.
 Ltac Zify.zify_post_hook ::= Z.to_euclidean_division_equations.
 
-(* ---------------------------------------------------------------- reader *)
-Lemma t1_dispatch_found skip t l v : t1_dispatch skip t l v = Ok Found -> t = 3.
-Proof. unfold t1_dispatch. destruct (Z.eqb_spec t 0); [discriminate|].
-  destruct (Z.eqb_spec t 1); [destruct (ctl_range _ _ _); discriminate|].
-  destruct (Z.eqb_spec t 2); [destruct (ctl_range _ _ _); discriminate|].
+(* ---------------------------------------------------------------- reader (after the repairs c08-12/13/15) *)
+Lemma t1_dispatch_found skip t l v : t1_dispatch_r skip t l v = Ok Found -> t = 3.
+Proof. unfold t1_dispatch_r. destruct (Z.eqb_spec t 0); [discriminate|].
+  destruct (Z.eqb_spec t 1); [destruct (l =? 3); [destruct (ctl_range _ _ _); discriminate | discriminate]|].
+  destruct (Z.eqb_spec t 2); [destruct (l =? 3); [destruct (ctl_range _ _ _); discriminate | discriminate]|].
   destruct (Z.eqb_spec t 3); [auto|]. destruct (t =? 254); discriminate. Qed.
 
 Lemma t1_walk_found : forall fuel em size skip off hw o s v h,
-  t1_walk fuel em size skip off hw = Ok (Some (o, s, v, h)) ->
+  t1_walk_r fuel em size skip off hw = Ok (Some (o, s, v, h)) ->
   hw <= h /\ in_skip s o = false /\ exists l e, read_tlv em o s = Ok (3, l, v, e).
 Proof.
   induction fuel as [|f IH]; intros em size skip off hw o s v h H; [discriminate|].
-  cbn [t1_walk] in H. destruct (size <=? off); [discriminate|].
+  cbn [t1_walk_r] in H. destruct (size <=? off); [discriminate|].
   destruct (in_skip skip off) eqn:Es; [apply IH in H; exact H|].
-  destruct (rd em off) as [t0| | |] eqn:E0; try discriminate.
   destruct (read_tlv em off skip) as [[[[t l] v0] e]| | |] eqn:Er; try discriminate.
-  destruct (t1_dispatch skip t l v0) as [[skip'| |]| | |] eqn:Ed; try discriminate.
+  destruct (t1_dispatch_r skip t l v0) as [[skip'| |]| | |] eqn:Ed; try discriminate.
   - apply IH in H. destruct H as (H1 & H3 & H4). repeat split; auto; lia.
   - injection H as <- <- <- <-. apply t1_dispatch_found in Ed. subst t. repeat split; auto; try lia. eauto.
 Qed.
 
 Lemma t1_walk_reach : forall fuel em1 em2 size skip off hw o s v h l' v' e',
-  t1_walk fuel em1 size skip off hw = Ok (Some (o, s, v, h)) ->
+  t1_walk_r fuel em1 size skip off hw = Ok (Some (o, s, v, h)) ->
   agree_below h em1 em2 ->
   read_tlv em2 o s = Ok (3, l', v', e') ->
-  t1_walk fuel em2 size skip off hw = Ok (Some (o, s, v', h)).
+  t1_walk_r fuel em2 size skip off hw = Ok (Some (o, s, v', h)).
 Proof.
   induction fuel as [|f IH]; intros em1 em2 size skip off hw o s v h l' v' e' H HA HR; [discriminate|].
-  cbn [t1_walk] in *. destruct (size <=? off); [discriminate|].
+  cbn [t1_walk_r] in *. destruct (size <=? off); [discriminate|].
   destruct (in_skip skip off) eqn:Es; [eapply IH; eauto|].
-  destruct (rd em1 off) as [t0| | |] eqn:E0; try discriminate.
   destruct (read_tlv em1 off skip) as [[[[t l] v0] e]| | |] eqn:Er; try discriminate.
-  destruct (t1_dispatch skip t l v0) as [[skip'| |]| | |] eqn:Ed; try discriminate.
+  destruct (t1_dispatch_r skip t l v0) as [[skip'| |]| | |] eqn:Ed; try discriminate.
   - pose proof (t1_walk_found _ _ _ _ _ _ _ _ _ _ H) as (Hm & _).
-    destruct HA as [HL HG]. pose proof (read_tlv_inv _ _ _ _ _ _ _ Er) as (_ & He & _).
-    rewrite <- (rd_congr em1 em2 off HL) by (intro; apply HG; lia). rewrite E0.
+    destruct HA as [HL HG].
     rewrite (read_tlv_congr em1 em2 off skip t l v0 e Er HL) by (intros; apply HG; lia).
     rewrite Ed. eapply IH; eauto. split; assumption.
-  - injection H as <- <- <- <-. pose proof (read_tlv_inv _ _ _ _ _ _ _ HR) as (R0 & _). rewrite R0, HR.
-    reflexivity.
+  - injection H as <- <- <- <-. rewrite HR. reflexivity.
 Qed.
 
-Lemma t1_read_inv hr0 m L : t1_read hr0 m = Ok (Some L) ->
+Lemma t1_read_inv hr0 m L : t1_reader hr0 m = Ok (Some L) ->
   exists b9 b10 b11,
     120 <= len m /\ Z.shiftr hr0 4 = 1 /\
     rd m 8 = Ok 225 /\ rd m 9 = Ok b9 /\ rd m 10 = Ok b10 /\ rd m 11 = Ok b11 /\ Z.shiftr b9 4 = 1 /\
     l_dend L = (b10 + 1) * 8 /\
-    t1_walk (S (Z.to_nat (l_dend L))) m (l_dend L) [(104, if l_dend L =? 120 then 120 else 128)] 12 12
+    t1_walk_r (S (Z.to_nat (l_dend L))) m (l_dend L) [(104, if l_dend L =? 120 then 120 else 128)] 12 12
       = Ok (Some (l_off L, l_skip L, l_val L, l_hw L)) /\
     l_cap L = get_capacity (l_dend L) (l_off L) (l_skip L) /\
-    l_rd L = (Z.shiftr b11 4 =? 0) /\ l_wr L = (Z.land b11 15 =? 0).
+    l_rd L = (Z.shiftr b11 4 =? 0) /\ l_wr L = (Z.land b11 15 =? 0) /\ ndef_fits m L = true.
 Proof.
-  unfold t1_read. intro H. destruct (Z.ltb_spec (len m) 120); [discriminate|].
+  unfold t1_reader. intro H. destruct (Z.ltb_spec (len m) 120); [discriminate|].
   destruct (Z.eqb_spec (Z.shiftr hr0 4) 1) as [Hh|]; [|discriminate]. cbn [negb] in H.
   destruct (rd m 8) as [b8| | |] eqn:E8; try discriminate.
   destruct (rd m 9) as [b9| | |] eqn:E9; try discriminate.
@@ -66,31 +62,34 @@ Proof.
   destruct (rd m 11) as [b11| | |] eqn:E11; try discriminate.
   destruct (Z.eqb_spec b8 225) as [->|]; [|discriminate]. cbn [negb] in H.
   destruct (Z.eqb_spec (Z.shiftr b9 4) 1) as [Hv|]; [|discriminate]. cbn [negb] in H.
-  destruct (t1_walk _ m ((b10 + 1) * 8) _ 12 12) as [[[[[off skip] v] hw]|]| | |] eqn:Ew;
+  destruct (t1_walk_r _ m ((b10 + 1) * 8) _ 12 12) as [[[[[off skip] v] hw]|]| | |] eqn:Ew;
     cbn [bind] in H; try discriminate.
+  match type of H with (if ?c then _ else _) = _ => destruct c eqn:Ef end; [|discriminate].
   injection H as <-. cbn [l_off l_skip l_val l_hw l_dend l_cap l_rd l_wr].
   exists b9, b10, b11. repeat split; auto.
 Qed.
 
-Lemma t1_read_transfer hr0 m m2 L l' v' e' : t1_read hr0 m = Ok (Some L) ->
-  agree_below (Z.max 12 (l_hw L)) m m2 ->
+Lemma t1_read_transfer hr0 m m2 L l' v' e' : t1_reader hr0 m = Ok (Some L) ->
+  agree_below (Z.max 12 (l_hw L)) m m2 -> ndef_fits m2 (set_val L v') = true ->
   read_tlv m2 (l_off L) (l_skip L) = Ok (3, l', v', e') ->
-  t1_read hr0 m2 = Ok (Some (set_val L v')).
+  t1_reader hr0 m2 = Ok (Some (set_val L v')).
 Proof.
-  intros H HA HR. destruct (t1_read_inv _ _ _ H) as (b9 & b10 & b11 & Hlen & Hh & E8 & E9 & E10 & E11 & Hv & Hd & Hw & Hc & Hrd & Hwr).
+  intros H HA HF HR. destruct (t1_read_inv _ _ _ H) as (b9 & b10 & b11 & Hlen & Hh & E8 & E9 & E10 & E11 & Hv & Hd & Hw & Hc & Hrd & Hwr & _).
   destruct HA as [HL HG].
   assert (R : forall a, a < 12 -> rd m2 a = rd m a) by (intros a Ha; apply rd_congr; [congruence | intro; symmetry; apply HG; lia]).
-  unfold t1_read. replace (len m2) with (len m) by (unfold len; congruence). replace (len m <? 120) with false by lia.
+  unfold t1_reader. replace (len m2) with (len m) by (unfold len; congruence). replace (len m <? 120) with false by lia.
   rewrite Hh. cbn [Z.eqb negb Pos.eqb]. rewrite (R 8), (R 9), (R 10), (R 11), E8, E9, E10, E11 by lia.
   cbn [Z.eqb negb Pos.eqb]. rewrite Hv. cbn [Z.eqb negb Pos.eqb]. rewrite <- Hd.
   rewrite (t1_walk_reach _ m m2 _ _ _ _ _ _ _ _ l' v' e' Hw); [| split; [exact HL | intros; apply HG; lia] | exact HR].
-  cbn [bind]. unfold set_val. rewrite Hc, Hrd, Hwr. reflexivity.
+  cbn [bind]. rewrite <- Hc, <- Hrd, <- Hwr.
+  change {| l_off := l_off L; l_skip := l_skip L; l_cap := l_cap L; l_rd := l_rd L; l_wr := l_wr L; l_val := v';
+            l_dend := l_dend L; l_hw := l_hw L |} with (set_val L v'). rewrite HF. reflexivity.
 Qed.
 
 (* ---------------------------------------------------------------- a well-formed layout *)
 Definition wfL1 (hr0 : Z) (m : list Z) (L : layout) : Prop :=
-  t1_read hr0 m = Ok (Some L) /\
-  ((Z.land hr0 15 = 1 /\ len m = 120) \/ (Z.land hr0 15 <> 1 /\ 256 <= len m /\ len m mod 128 = 0)) /\
+  t1_reader hr0 m = Ok (Some L) /\
+  ((Z.land hr0 15 = 1 /\ len m = 120) \/ (Z.land hr0 15 <> 1 /\ 256 <= len m /\ len m <= 2048 /\ len m mod 128 = 0)) /\
   l_rd L = true /\ l_wr L = true /\ l_dend L <= len m /\ l_hw L <= l_off L /\ 12 <= l_off L /\ l_off L + 1 < l_dend L /\
   in_skip (l_skip L) (l_off L) = false /\ in_skip (l_skip L) (l_off L + 1) = false /\
   (255 <= l_cap L -> in_skip (l_skip L) (l_off L + 2) = false /\ in_skip (l_skip L) (l_off L + 3) = false).
@@ -98,7 +97,7 @@ Definition wfL1 (hr0 : Z) (m : list Z) (L : layout) : Prop :=
 Lemma t1_wf_layout_wfL hr0 m : t1_wf_layout hr0 m -> exists L, wfL1 hr0 m L.
 Proof.
   unfold t1_wf_layout, t1_wf_layoutb. intro H.
-  destruct (t1_read hr0 m) as [[L|]| | |] eqn:E; try (rewrite !andb_false_r in H; discriminate).
+  destruct (t1_reader hr0 m) as [[L|]| | |] eqn:E; try (rewrite !andb_false_r in H; discriminate).
   exists L. unfold wfL1. split; [exact E|].
   apply andb_true_iff in H. destruct H as [Hsz H].
   repeat match goal with Hx : _ && _ = true |- _ => apply andb_true_iff in Hx; destruct Hx end.
@@ -119,14 +118,14 @@ Notation skip := (l_skip L).
 Notation dend := (l_dend L).
 Notation u := (t1_unit hr0).
 
-Lemma w_read : t1_read hr0 m = Ok (Some L). Proof. apply WF. Qed.
+Lemma w_read : t1_reader hr0 m = Ok (Some L). Proof. apply WF. Qed.
 Lemma w_unit : (0 < u)%nat /\ exists ku, length m = (ku * u)%nat.
 Proof.
   destruct WF as (Hr & Hsz & _). destruct (t1_read_inv _ _ _ Hr) as (_ & _ & _ & _ & Hh & _).
   unfold t1_unit. rewrite Hh. cbn [Z.eqb Pos.eqb andb].
   destruct Hsz as [[H1 H2]|[H1 [H2 H3]]].
   - rewrite H1. cbn. split; [lia|]. exists (length m). lia.
-  - replace (Z.land hr0 15 =? 1) with false by lia. cbn [negb]. split; [lia|].
+  - destruct H3 as [H3' H3]. replace (Z.land hr0 15 =? 1) with false by lia. cbn [negb]. split; [lia|].
     exists (Z.to_nat (len m / 8)). unfold len in *. lia.
 Qed.
 Lemma w_tag : get m off = 3.
@@ -135,25 +134,25 @@ Proof. destruct (t1_read_inv _ _ _ w_read) as (b9 & b10 & b11 & _ & _ & _ & _ & 
   apply read_tlv_inv in H. destruct H as (H & _). apply rd_inv in H. symmetry. apply H. Qed.
 Lemma w_cap : l_cap L = get_capacity dend off skip.
 Proof. destruct (t1_read_inv _ _ _ w_read) as (b9 & b10 & b11 & _ & _ & _ & _ & _ & _ & _ & _ & _ & Hc & _). exact Hc. Qed.
-Lemma w_transfer c l' v' e' : agree_below (off + 1) m c -> read_tlv c off skip = Ok (3, l', v', e') ->
-  t1_read hr0 c = Ok (Some (set_val L v')).
-Proof. intros HA HR. apply (t1_read_transfer hr0 m c L l' v' e' w_read); [|exact HR].
+Lemma w_transfer c l' v' e' : agree_below (off + 1) m c -> ndef_fits c (set_val L v') = true ->
+  read_tlv c off skip = Ok (3, l', v', e') -> t1_reader hr0 c = Ok (Some (set_val L v')).
+Proof. intros HA HF HR. apply (t1_read_transfer hr0 m c L l' v' e' w_read); [| exact HF | exact HR].
   destruct WF as (_ & _ & _ & _ & _ & Hhw & Ho & _). apply (agree_below_le (off + 1)); [lia | exact HA]. Qed.
 
 Ltac unpack := let H := fresh in pose proof WF as H; unfold wfL1 in H;
   destruct H as (?Hr & ?Hsz & ?Hrd & ?Hwr & ?Hde & ?Hhw & ?Ho12 & ?Ho1 & ?S0 & ?S1 & ?S23).
 Ltac generic := first [exact w_tag | exact w_cap | exact w_transfer | lia | eassumption].
-Ltac gen lemma ku := unpack; eapply (lemma m L u ku (t1_read hr0)); generic.
+Ltac gen lemma ku := unpack; eapply (lemma m L u ku (t1_reader hr0)); generic.
 
 (* the caches of a write; cut safety needs the length field (when it has three bytes) inside one write unit *)
 Lemma t1_caches (d : list Z) : len d <= l_cap L ->
-  caches_ok m L u (t1_read hr0) (t1_phases L d) d (len d < 255 \/ one_unit u off).
+  caches_ok m L u (t1_reader hr0) (t1_phases L d) d (len d < 255 \/ one_unit u off).
 Proof.
   intro Hcap. destruct w_unit as (Hu & ku & Hk). unfold t1_phases.
   destruct (Z.ltb_spec (len d) 255) as [Hd|Hd].
-  - assert (C : caches_ok m L u (t1_read hr0) [ph_len0 L; ph_data L d; ph_len_short L d] d True) by (gen caches_short ku).
+  - assert (C : caches_ok m L u (t1_reader hr0) [ph_len0 L; ph_data L d; ph_len_short L d] d True) by (gen caches_short ku).
     destruct C as (cs & cf & H1 & H2 & H3 & H4 & H5 & H6). exists cs, cf. repeat (split; [assumption|]). intros _. apply H6. exact I.
-  - assert (C : caches_ok m L u (t1_read hr0) [ph_len0 L; ph_data L d; ph_len_long_unrepaired L d] d (one_unit u off)) by (gen caches_unrepaired ku).
+  - assert (C : caches_ok m L u (t1_reader hr0) [ph_len0 L; ph_data L d; ph_len_long_unrepaired L d] d (one_unit u off)) by (gen caches_unrepaired ku).
     destruct C as (cs & cf & H1 & H2 & H3 & H4 & H5 & H6). exists cs, cf. repeat (split; [assumption|]).
     intros [Hs|Hs]; [lia | apply H6; exact Hs].
 Qed.
@@ -164,7 +163,7 @@ Lemma t1_write_result (d : list Z) : len d <= l_cap L ->
        0 <= fst w /\ fst w mod Z.of_nat u = 0 /\ fst w + Z.of_nat u <= len m /\ len (snd w) = Z.of_nat u /\
        exists x, fst w <= x < fst w + Z.of_nat u /\ off < x /\ ndef_area L x = true) /\
     apply_ws m (chain_cmds u m cs) = cf /\ length cf = length m /\
-    touch L m cf /\ t1_read hr0 cf = Ok (Some (set_val L d)) /\
+    touch L m cf /\ t1_reader hr0 cf = Ok (Some (set_val L d)) /\
     (len d < 255 \/ one_unit u off -> forall j, let x := apply_ws m (firstn j (chain_cmds u m cs)) in x = m \/ hdr0 m L x \/ x = cf).
 Proof.
   intro Hcap. destruct w_unit as (Hu & ku & Hk).
@@ -187,14 +186,14 @@ Proof.
   - eapply (Hmix Hsafe); eassumption.
 Qed.
 
-Lemma t1_hdr0_read c : hdr0 m L c -> t1_read hr0 c = Ok (Some (set_val L [])).
-Proof. intro H. destruct w_unit as (Hu & ku & Hk). gen hdr0_read ku. Qed.
+Lemma t1_hdr0_read c : 0 <= l_cap L -> hdr0 m L c -> t1_reader hr0 c = Ok (Some (set_val L [])).
+Proof. intros Hc0 H. destruct w_unit as (Hu & ku & Hk). gen hdr0_read ku. Qed.
 End Layout1.
 Set Default Proof Using "Type".
 
 (* ---------------------------------------------------------------- theorems *)
-Lemma t1_capacity_layout hr0 m cap : t1_capacity hr0 m = Some cap -> exists L, t1_read hr0 m = Ok (Some L) /\ l_cap L = cap.
-Proof. unfold t1_capacity. destruct (t1_read hr0 m) as [[L|]| | |]; try discriminate. intro H. injection H as <-. eauto. Qed.
+Lemma t1_capacity_layout hr0 m cap : t1_capacity hr0 m = Some cap -> exists L, t1_reader hr0 m = Ok (Some L) /\ l_cap L = cap.
+Proof. unfold t1_capacity. destruct (t1_reader hr0 m) as [[L|]| | |]; try discriminate. intro H. injection H as <-. eauto. Qed.
 Lemma wfL1_capacity hr0 m L cap : wfL1 hr0 m L -> t1_capacity hr0 m = Some cap -> l_cap L = cap.
 Proof. intros H Hc. destruct (t1_capacity_layout hr0 m cap Hc) as (L' & Hr' & Hc'). destruct H as (Hr & _). congruence. Qed.
 Lemma wfL1_layout hr0 m L L' : wfL1 hr0 m L' -> t1_layout hr0 m = Some L -> L' = L.
@@ -243,7 +242,7 @@ Proof.
   assert (Hrd : l_rd L = true) by apply HL.
   unfold t1_fresh. destruct Hcut as [E|[E|E]].
   - left. rewrite E. reflexivity.
-  - right; left. rewrite (t1_hdr0_read hr0 m L HL _ E). cbn [classify set_val l_rd l_val]. rewrite Hrd. reflexivity.
+  - right; left. rewrite (t1_hdr0_read hr0 m L HL _ ltac:(pose proof (len_nonneg d); lia) E). cbn [classify set_val l_rd l_val]. rewrite Hrd. reflexivity.
   - right; right. rewrite E, Hf. cbn [classify set_val l_rd l_val]. rewrite Hrd. reflexivity.
 Qed.
 
